@@ -51,7 +51,7 @@ func init() {
 	reg("C02", propCfg{Quick: tierCfg{Checks: 200000, Timeout: 8 * m}, Thor: tierCfg{Checks: 30000000, Timeout: 90 * m, FuzzTime: 3 * m}, Fuzz: []string{"FuzzParse"}})
 	reg("C03", propCfg{Quick: tierCfg{Checks: 200000, Timeout: 8 * m}, Thor: tierCfg{Checks: 10000000, Timeout: 90 * m, FuzzTime: 3 * m}, Fuzz: []string{"FuzzBuild"}})
 	reg("C04", propCfg{Quick: tierCfg{Checks: 30000, Timeout: 8 * m}, Thor: tierCfg{Checks: 2500000, Timeout: 90 * m}})
-	reg("C05", propCfg{NeedCLI: true, Quick: tierCfg{Checks: 4000, Timeout: 8 * m}, Thor: tierCfg{Checks: 200000, Timeout: 90 * m}})
+	reg("C05", propCfg{NeedCLI: true, Quick: tierCfg{Checks: 9000, Timeout: 8 * m}, Thor: tierCfg{Checks: 200000, Timeout: 90 * m}})
 	reg("C06", propCfg{Quick: tierCfg{Checks: 25000, Timeout: 8 * m}, Thor: tierCfg{Checks: 2000000, Timeout: 90 * m}})
 	reg("C07", propCfg{Quick: tierCfg{Checks: 15000, Timeout: 8 * m}, Thor: tierCfg{Checks: 1000000, Timeout: 90 * m}})
 	reg("C08", propCfg{Quick: tierCfg{Checks: 16000, Timeout: 8 * m}, Thor: tierCfg{Checks: 800000, Timeout: 90 * m}})
